@@ -64,7 +64,7 @@ TOLS = [None, 0.5, 0.1, 1e-2, 1e-4, 1e-8, 1e-12, 1e-16]
 def gen_cases(tier, seed):
     quick = tier == "quick"
     out = []
-    for d in range(16 if quick else 120):
+    for d in range(24 if quick else 120):
         rng = cg.rng_for(seed, "C20", d)
         n = rng.randint(2, 5)
         line = [0.0]
@@ -78,7 +78,13 @@ def gen_cases(tier, seed):
             basis.append(cg.shell(rng, rng.choice([0, 0, 1, 2, 3]), K=rng.randint(1, 4), M=rng.randint(1, 2), lo=0.05, hi=500.0,
                                   bits=10 if quick else 24, cen=cen))
         c = {"id": d + 1, "basis": basis}
-        if d % 4 == 3:
+        if d % 2 == 1:
+            # the tolerance has to reach the kernel through every dispatch path: all-Cartesian, all-spherical and mixed
+            force = ["cartesian", "spherical", None][(d // 2) % 3]
+            if force:
+                for s_ in basis:
+                    s_["type"] = force
+        if d % 2 == 1:
             nb = sum(layout.size(s) for s in basis)
             c["transform"] = [[cg.val(cg.dyadic(rng.uniform(-1, 1), 8)) for _ in range(nb)] for _ in range(rng.choice([nb, nb + 1, 2]))]
         out.append(c)
